@@ -61,7 +61,7 @@ def rule_eq_hash(ctx: RuleContext, p: Program, rid: str) -> None:
                   '__eq__ and __hash__ only together')
     n = 0
     base = p.cls('RawTokenModel', 'models.base')
-    for c in [base, *p.token_model_classes()]:
+    for c in [base, *base.all_subclasses()]:
         eq = c.attrs.get('__eq__')
         hs = c.attrs.get('__hash__')
         if eq is None and hs is None:
@@ -79,6 +79,28 @@ def rule_eq_hash(ctx: RuleContext, p: Program, rid: str) -> None:
                   note=f'hashed {sorted(hashed)} subset of compared {sorted(compared)}')
     if n < 1:
         raise AnalysisError('EQ-HASH: RawTokenModel.__eq__/__hash__ not found')
+
+
+def rule_eq_text(ctx: RuleContext, p: Program, rid: str) -> None:
+    ctx.rule(rid, 'every __eq__ defined in the token-model hierarchy (base classes included) compares the raw text of both sides: two tokens '
+                  'are equal only if they read the same, so two spellings of one value ("2000/01/01" and "2000-01-01", "1.0" and "1.00") '
+                  'are different tokens and models that contain them are different models')
+    n = 0
+    base = p.cls('RawTokenModel', 'models.base')
+    for c in [base, *base.all_subclasses()]:
+        eq = c.attrs.get('__eq__')
+        if not isinstance(eq, FuncInfo):
+            continue
+        n += 1
+        compared = _self_reads(eq) & _self_reads(eq, eq.params[1])
+        delegates = any(isinstance(x, ast.Call) and norm(x.func) == 'super().__eq__' for x in ast.walk(eq.node))
+        ok = bool(compared & {'raw_text', '_raw_text'}) or delegates
+        ctx.check(ok, rid, f'{c.module.name.split(".", 1)[1]}:{c.name}.__eq__', f'compares {sorted(compared)}',
+                  f'{c.name}.__eq__ compares {sorted(compared)} but not the raw text: tokens with different text and the same derived value '
+                  f'compare equal, and through the token-list comparison of RawTreeModel.__eq__ so do whole models whose printed text differs',
+                  eq.where, note=f'compares {sorted(compared)}')
+    if n < 1:
+        raise AnalysisError('EQ-TEXT: no token __eq__ found')
 
 
 def rule_eq_wrap(ctx: RuleContext, p: Program, rid: str) -> None:
@@ -121,6 +143,7 @@ def run(ctx: RuleContext, p: Program) -> None:
     ctx.try_rule(handmodels.rule_hand_eq, p, 'COVER-EQ')
     ctx.try_rule(rule_eq_base, p, 'EQ-BASE')
     ctx.try_rule(rule_eq_hash, p, 'EQ-HASH')
+    ctx.try_rule(rule_eq_text, p, 'EQ-TEXT')
     ctx.try_rule(rule_eq_wrap, p, 'EQ-WRAP')
     ctx.not_decided += ['equality of two parses of one text (runtime)', 'inequality after every single edit (runtime)',
                         'symmetry for mixed token/tree comparisons']
